@@ -31,10 +31,11 @@ def t_ctx(chk, ix):
     rules_context.check_execute_steps(chk, ix)
     rules_context.check_use_or_param(chk, ix)
     rules_context.check_root_frame_is_own(chk, ix)
+    rules_context.check_fresh_context_per_run(chk, ix)
 
 
 def run(chk, ix, tier):
     run_parallel(chk, [(t_ctx, ()), (T.t_scenario, (("X5",),)), (T.t_run_model, (("X8",),))]
                  + [(T.t_container, (("X5",), (w,))) for w in ("Feature", "Rule")])
-    for r, n in (("X1", 2), ("X2", 2), ("X3", 2), ("X4", 4), ("X5", 3), ("X6", 1), ("X7", 2), ("X8", 1), ("X9", 2), ("X10", 6), ("X11", 1)):
+    for r, n in (("X1", 2), ("X2", 2), ("X3", 2), ("X4", 4), ("X5", 3), ("X6", 1), ("X7", 2), ("X8", 1), ("X9", 2), ("X10", 6), ("X11", 1), ("X12", 2)):
         chk.require_instances(r, n)
